@@ -4,11 +4,12 @@ func init() { register("C02", checkC02, cfgLinux386) }
 
 func checkC02(p *Program, tier string) *Result {
 	r := newResult("C02")
-	r.Explanation = "R-VALIDATE-PASS: for the header and the seven bodies, every nil-error return of MarshalBinary and of UnmarshalBinary is dominated by the success edge of the type's Validate; no byte is produced before it, no field is assigned after it. R-NARROW: every narrowing conversion and every 2-octet write in an encoder is classified by its subject (length of field F, count of F, length of an element of F, value of F) and must be covered by an upper bound that Validate enforces on every accept path (bounds are derived from Validate's own SSA: direct comparisons with an error edge, element validators, field validators reached through the []Field loop). R-LAYOUT (shared with C01): encoder layout = decoder layout per type, every length bound to the field it measures, decoded fields are assigned only from reads of the input. R-ENUM(b): Validate accepts exactly the declared constants. Together: a value that encodes decodes to the same fields, and a value that does not fit is refused."
+	r.Explanation = "R-DECODEDONCE: every decoder stores each scalar field once, with what it read, and no module function writes through a pointer to it afterwards (no masking of reserved bits, no normalising setter). R-VALIDATE-PASS: for the header and the seven bodies, every nil-error return of MarshalBinary and of UnmarshalBinary is dominated by the success edge of the type's Validate; no byte is produced before it, no field is assigned after it. R-NARROW: every narrowing conversion and every 2-octet write in an encoder is classified by its subject (length of field F, count of F, length of an element of F, value of F) and must be covered by an upper bound that Validate enforces on every accept path (bounds are derived from Validate's own SSA: direct comparisons with an error edge, element validators, field validators reached through the []Field loop). R-LAYOUT (shared with C01): encoder layout = decoder layout per type, every length bound to the field it measures, decoded fields are assigned only from reads of the input. R-ENUM(b): Validate accepts exactly the declared constants. Together: a value that encodes decodes to the same fields, and a value that does not fit is refused."
 	validators := ruleValidatePass(p, r)
 	ruleNarrowEncoders(p, r, validators)
 	ruleLayout(p, r, "ed", true)
 	ruleEnum(p, r)
+	ruleDecodedOnce(p, r)
 	// the text validators' "all octets are ASCII" test looks at every octet
 	ruleASCIIPredicates(p, r)
 	r.Trusted = append(r.Trusted, "append/copy/len semantics")
